@@ -253,7 +253,7 @@ def must_reg(ctx: Ctx, chk) -> None:
                         ev_nodes += g.nodes_where(lambda x, node=node: x.contains(node))
                 # delegation: super().<same>(...), the wrapped function of a decorator wrapper, another handler of the class
                 deleg = []
-                wrapped_params = set(f.parent.params) if f.parent is not None else set()
+                wrapped_params = ctx.I.wrapped_param_names(f)
                 for c in ctx.own_nodes(fi):
                     if not isinstance(c, ast.Call):
                         continue
@@ -576,6 +576,21 @@ def listen1(ctx: Ctx, chk) -> None:
             e = strip(e)
             if e is producer:
                 return True
+            if isinstance(e, ast.Attribute) and isinstance(e.value, ast.Name):
+                # a field of a record built from the value (`incoming.message`)
+                at = g.nodes_where(lambda x: x.contains(user))
+                ds = reaching_defs(g, e.value.id, at[0]) if at else []
+                if len(ds) == 1 and isinstance(ds[0].ast, (ast.Assign, ast.AnnAssign)) and isinstance(strip(ds[0].ast.value), ast.Call):
+                    rc = strip(ds[0].ast.value)
+                    d_ = ctx.prog.resolve_expr(listen.module, rc.func) if isinstance(rc.func, (ast.Name, ast.Attribute)) else None
+                    flds = ctx.I.record_fields(d_.obj) if d_ is not None and d_.kind == "class" else None
+                    if flds and e.attr in flds:
+                        arg = next((k.value for k in rc.keywords if k.arg == e.attr), None)
+                        if arg is None and flds.index(e.attr) < len(rc.args):
+                            arg = rc.args[flds.index(e.attr)]
+                        if arg is not None:
+                            return flows_from(ds[0].ast, arg, producer)
+                return False
             if isinstance(e, ast.Name):
                 at = g.nodes_where(lambda x: x.contains(user))
                 if not at:
